@@ -21,8 +21,8 @@ anything else; it never guesses.  The subset:
           value `if`, `{ block }`, `Self { f, .. }` / `S { f, .. }` as the tail of a constructor (tuple of the
           numeric fields), calls of crate functions named in the target's table, `self.m()` for a translated
           argument-less method of the same type (inlined), constants `PI`, `std::f64::consts::PI`, `f64::EPSILON`,
-          module `const`s (inlined, or mapped by the target's table), `f64::INFINITY` / `f64::NAN` only as a
-          whole result in `moment` mode
+          module `const`s (inlined, or mapped by the target's table), `f64::INFINITY` (rs_f64_infinity O = 1/0: +inf on
+          binary64); `f64::NAN` only as a whole result in `moment` mode
   methods `.exp() .ln() .sqrt() .abs() .powi(k) .powf(y) .ln_1p() .exp_m1() .sin() .cos() .floor() .max(y) .min(y)`
           on f64; `.min(y) .max(y)` on integers
 
@@ -950,8 +950,10 @@ class Translator:
             want = self.ty_of_rust(ty)
             if t != want: raise self.fail(ce, "constant's type differs from its initialiser")
             return s, t
-        if segs in (["f64", "INFINITY"], ["f64", "NAN"], ["f64", "NEG_INFINITY"], ["std", "f64", "INFINITY"], ["std", "f64", "NAN"]):
-            raise self.fail(e, "infinity / NaN constants are only supported as a whole result (moment mode)")
+        if segs in (["f64", "INFINITY"], ["std", "f64", "INFINITY"]):
+            return "rs_f64_infinity O", "f"
+        if segs in (["f64", "NAN"], ["f64", "NEG_INFINITY"], ["std", "f64", "NAN"]):
+            raise self.fail(e, "-infinity / NaN constants are only supported as a whole result (moment mode)")
         raise self.fail(e, "unknown name")
 
     def binop(self, e, env):
